@@ -295,7 +295,9 @@ func ruleC02_4(c *Ctx, r *Rep) {
 				walk(a)
 			}
 		}
-		walk(h)
+		for _, f := range c.opFuncs(h) {
+			walk(f)
+		}
 		if n == 0 {
 			r.Fail("C02.4", "C02.4:params@Publish", h.Pos(), "Publish does not build PublishMessageParams")
 		}
@@ -411,7 +413,9 @@ func checkPublishIDs(c *Ctx, r *Rep, h *ssa.Function) {
 			walk(a)
 		}
 	}
-	walk(h)
+	for _, f := range c.opFuncs(h) {
+		walk(f)
+	}
 	if !found {
 		r.Fail("C02.4", key, h.Pos(), "Publish never fills MessageIds")
 	}
